@@ -89,6 +89,12 @@ fn mix_set(k: usize, pos: usize) -> IpfixSet {
 }
 
 pub fn streams(tier: &str) -> Vec<StreamGen> {
+    streams_with(tier, 4)
+}
+
+/// `quick_lists`: length bound of the multi-field template lists in the quick tier (the properties whose oracle is
+/// costly per evaluation - serialisation, the second build - take 3)
+pub fn streams_with(tier: &str, quick_lists: usize) -> Vec<StreamGen> {
     let thorough = tier == "thorough";
     let mut v: Vec<StreamGen> = vec![];
 
@@ -137,7 +143,7 @@ pub fn streams(tier: &str) -> Vec<StreamGen> {
     // 2. multi-field templates over the class representatives
     {
         let reps = ipfix_reps();
-        let maxlen = if thorough { 5 } else { 2 };
+        let maxlen = if thorough { 5 } else { quick_lists };
         let nl = list_count(reps.len(), maxlen);
         let r2 = reps.clone();
         let mk = move |i: u64| -> Option<Vec<Vec<u8>>> {
@@ -260,8 +266,8 @@ pub fn run(tier: &str) -> i32 {
         prop: "C05".into(),
         tier: tier.into(),
         level: "model_checking",
-        rule: "every index of each space is a conformant IPFIX stream (1..3 calls on one fresh parser) built from finite menus: every IE 0..=520(+extras, + enterprise variants) x supported width x value menu x delivery x padding; variable-length IEs x every pair of consecutive record lengths from {0,1,2,254,255,300} x short/long prefix; all lists of class representatives of length <= 2 (thorough 5); options templates; 1..=3 template records per set; all set sequences of length <= 3 (thorough 6) over an 11-set menu incl. data for an undefined id. Each call's result is compared with the RFC 7011 reference decode (flattened to (field index, name, value)); an outcome is distinct by the hash of the canonical results".into(),
-        bounds: json!({"history_depth": 3, "multi_field_list_len": if thorough {5} else {2}, "set_sequence_len": if thorough {6} else {3}, "records_per_set": "1..=3", "padding": "0..=3 and shorter than the minimal record"}),
+        rule: "every index of each space is a conformant IPFIX stream (1..3 calls on one fresh parser) built from finite menus: every IE 0..=520(+extras, + enterprise variants) x supported width x value menu x delivery x padding; variable-length IEs x every pair of consecutive record lengths from {0,1,2,254,255,300} x short/long prefix; all lists of class representatives of length <= 4 (thorough 5); options templates; 1..=3 template records per set; all set sequences of length <= 3 (thorough 6) over an 11-set menu incl. data for an undefined id. Each call's result is compared with the RFC 7011 reference decode (flattened to (field index, name, value)); an outcome is distinct by the hash of the canonical results".into(),
+        bounds: json!({"history_depth": 3, "multi_field_list_len": if thorough {5} else {4}, "set_sequence_len": if thorough {6} else {3}, "records_per_set": "1..=3", "padding": "0..=3 and shorter than the minimal record"}),
         assumptions: vec!["IE number -> (name, value class) is the library's own table (pinned by its lookup snapshot tests)".into(), "template withdrawals are not generated".into()],
         trusted_base: vec!["refmodel::ref_ipfix_sets (RFC 7011 reference decoder) and refmodel::decode".into()],
         required_tags: vec![],
